@@ -223,6 +223,7 @@ def _no_inner_anchor(it):
 
 
 _PARSED = {}
+_UNAMB = {}
 
 
 def parsed(pattern):
@@ -265,6 +266,14 @@ class MatchModel:
 
 def do_match(interp, st, pattern, s, mode):
     """yields (st, match-object | VNone | Raise)"""
+    from .chars import VChars
+    if isinstance(s, VChars):
+        if s.concrete:
+            from .chars import to_vstr
+            s = to_vstr(s)
+        else:
+            yield from do_match_chars(interp, st, pattern, s, mode)
+            return
     P = parsed(pattern)
     if P.is_bytes != isinstance(s, VBytes):
         if not isinstance(s, (VStr, VBytes)):
@@ -319,14 +328,7 @@ def do_match(interp, st, pattern, s, mode):
             parts.append((None, item_to_re(it, P.is_bytes, P.flags), False))
     tail_nl = P.end_kind == '$' and mode != 'fullmatch'
     xs, cons = split_vars(parts, tail_nl, 'g')
-    ys, cons2 = split_vars(parts, tail_nl, 'h')
-    # uniqueness of the split: side obligation
-    diff = z3.Or(*[x != y for x, y in zip(xs, ys)]) if xs else z3.BoolVal(False)
-    amb = z3.And(z3.Concat(*xs) == z3.Concat(*ys) if len(xs) > 1 else xs[0] == ys[0], *cons, *cons2, diff)
-    from .engine import Obligation
-    ob = Obligation(f"{interp.current}::regex-unambiguous[{pattern.pattern!r}]", [], z3.Not(amb), 'side')
-    if not any(o.name == ob.name for o in interp.obligations):
-        interp.obligations.append(ob)
+    emit_unambiguous(interp, pattern, P, mode)
     st.assume(t == (z3.Concat(*xs) if len(xs) > 1 else xs[0]))
     for c in cons:
         st.assume(c)
@@ -448,3 +450,273 @@ def re_sub(interp, st, args, kwargs):
     st.assume(z3.Implies(z3.InRe(s.term(), z3.Star(notC)), res == s.term()))
     interp.builtins_used.add("re.sub(class-removal)")
     yield st, mk_like(s, res)
+
+
+# ------------------------------------------------------------------------------ matching VChars
+
+def code_cond(item, c, is_bytes, flags):
+    """condition (bool | z3 Bool) that char code c matches the single-character regex item"""
+    op, av = item
+    sym = not isinstance(c, int)
+
+    def rng_cond(a, b):
+        if sym:
+            return z3.And(c >= a, c <= b) if a != b else c == a
+        return a <= c <= b
+    if op is sre_c.LITERAL:
+        return rng_cond(av, av)
+    if op is sre_c.NOT_LITERAL:
+        r = rng_cond(av, av)
+        return (not r) if isinstance(r, bool) else z3.Not(r)
+    if op is sre_c.ANY:
+        if flags & re.DOTALL:
+            return True
+        r = rng_cond(10, 10)
+        return (not r) if isinstance(r, bool) else z3.Not(r)
+    if op is sre_c.CATEGORY:
+        return category_cond(av, c, is_bytes, flags, rng_cond)
+    if op is sre_c.IN:
+        negate = False
+        parts = []
+        for o2, a2 in av:
+            if o2 is sre_c.NEGATE:
+                negate = True
+            elif o2 is sre_c.LITERAL:
+                parts.append(rng_cond(a2, a2))
+            elif o2 is sre_c.RANGE:
+                parts.append(rng_cond(a2[0], a2[1]))
+            elif o2 is sre_c.CATEGORY:
+                parts.append(category_cond(a2, c, is_bytes, flags, rng_cond))
+            else:
+                raise Unsupported(f"regex class item {o2}")
+        r = disj_terms(parts)
+        if negate:
+            r = (not r) if isinstance(r, bool) else z3.Not(r)
+        return r
+    raise Unsupported(f"regex item {op} is not a single character")
+
+
+_CAT_TEMPLATES = {}
+
+
+def category_cond(cat, c, is_bytes, flags, rng_cond):
+    if not isinstance(c, int):
+        # build the (large) disjunction once for a template variable and substitute
+        key = (str(cat), is_bytes, flags & re.ASCII)
+        if key not in _CAT_TEMPLATES:
+            c0 = z3.Int('c!tmpl')
+            _CAT_TEMPLATES[key] = (c0, _category_cond(cat, c0, is_bytes, flags,
+                                                       lambda a, b: z3.And(c0 >= a, c0 <= b) if a != b else c0 == a))
+        c0, tmpl = _CAT_TEMPLATES[key]
+        return z3.substitute(tmpl, (c0, c)) if not isinstance(tmpl, bool) else tmpl
+    return _category_cond(cat, c, is_bytes, flags, rng_cond)
+
+
+def _category_cond(cat, c, is_bytes, flags, rng_cond):
+    name = str(cat)
+    ascii_only = is_bytes or (flags & re.ASCII)
+    if name.endswith('CATEGORY_DIGIT'):
+        if ascii_only:
+            return rng_cond(0x30, 0x39)
+        return disj_terms([rng_cond(a, b) for a, b in unicode_nd_ranges()])
+    if name.endswith('CATEGORY_NOT_DIGIT'):
+        r = category_cond(sre_c.CATEGORY_DIGIT, c, is_bytes, flags, rng_cond)
+        return (not r) if isinstance(r, bool) else z3.Not(r)
+    raise Unsupported(f"regex category {name} on symbolic characters")
+
+
+def flatten_atoms(items, groups=()):
+    """top-level items -> list of (single-char item, lo, hi, group ids).  Unsupported otherwise."""
+    out = []
+    for it in items:
+        op, av = it
+        if op in (sre_c.LITERAL, sre_c.NOT_LITERAL, sre_c.ANY, sre_c.IN, sre_c.CATEGORY):
+            out.append((it, 1, 1, groups))
+        elif op in (sre_c.MAX_REPEAT, sre_c.MIN_REPEAT):
+            lo, hi, sub = av
+            sub = list(sub)
+            if len(sub) == 1 and sub[0][0] in (sre_c.LITERAL, sre_c.NOT_LITERAL, sre_c.ANY, sre_c.IN, sre_c.CATEGORY):
+                out.append((sub[0], lo, None if hi is sre_c.MAXREPEAT else hi, groups))
+            else:
+                raise Unsupported("regex repeat of a compound item on symbolic characters")
+        elif op is sre_c.SUBPATTERN:
+            gid, add, dele, sub = av
+            out += flatten_atoms(list(sub), groups + ((gid,) if gid is not None else ()))
+        else:
+            raise Unsupported(f"regex construct {op} on symbolic characters")
+    return out
+
+
+def do_match_chars(interp, st, pattern, s, mode):
+    from .chars import VChars
+    P = parsed(pattern)
+    if P.is_bytes != s.is_bytes:
+        yield st, exc(TypeError, "cannot use a string pattern on a bytes-like object")
+        return
+    if not ((P.anch_start or mode in ('match', 'fullmatch')) and (P.end_kind is not None or mode == 'fullmatch')):
+        raise Unsupported("unanchored pattern on symbolic characters")
+    atoms = flatten_atoms(P.items)
+    L = len(s.codes)
+    tails = [0]
+    if P.end_kind == '$' and mode != 'fullmatch':
+        tails.append(1)
+    emit_unambiguous(interp, pattern, P, mode)
+    interp.builtins_used.add(f"re.{mode}(symbolic characters)")
+    splits = []
+
+    def enum(i, used, counts):
+        if i == len(atoms):
+            if used == total:
+                splits.append(list(counts))
+            return
+        it, lo, hi, gs = atoms[i]
+        mx = total - used if hi is None else min(hi, total - used)
+        for k in range(lo, mx + 1):
+            enum(i + 1, used + k, counts + [k])
+    conds_all = []
+    results = []
+    ctab = {}
+    for tail in tails:
+        total = L - tail
+        if total < 0:
+            continue
+        splits = []
+        enum(0, 0, [])
+        for counts in splits:
+            pos = 0
+            conds = []
+            spans = {}
+            for ai, ((it, lo, hi, gs), k) in enumerate(zip(atoms, counts)):
+                for j in range(k):
+                    key = (ai, pos + j)
+                    if key not in ctab:
+                        ctab[key] = code_cond(it, s.codes[pos + j], P.is_bytes, P.flags)
+                    conds.append(ctab[key])
+                for g in gs:
+                    a, b = spans.get(g, (pos, pos))
+                    spans[g] = (min(a, pos), pos + k)
+                pos += k
+            if tail:
+                c = s.codes[L - 1]
+                conds.append((c == 10) if isinstance(c, int) else c == 10)
+            cnd = conj_terms(conds)
+            if cnd is False:
+                continue
+            conds_all.append(cnd)
+            results.append((cnd, spans, total))
+    # no match
+    none_c = neg(disj_terms(conds_all)) if conds_all else True
+    if none_c is not False:
+        s_no = st.copy()
+        if none_c is True or (s_no.assume(none_c) and interp.feasible(s_no)):
+            yield s_no, VNone
+    for cnd, spans, total in results:
+        s1 = st.copy()
+        if cnd is not True and (not s1.assume(cnd) or not interp.feasible(s1)):
+            continue
+        gv = []
+        for g in range(1, P.ngroups + 1):
+            if g in spans:
+                a, b = spans[g]
+                gv.append(VChars(s.codes[a:b], s.is_bytes))
+            else:
+                gv.append(VNone)
+        names = s1.alloc(HDict({k: VInt(v) for k, v in P.groupindex.items()}))
+        yield s1, s1.alloc(HObj(MatchModel, dict(string=VChars(s.codes[:total], s.is_bytes), _groups=VTuple(gv), _names=names)))
+
+
+def syntactically_unambiguous(P, mode):
+    """Sufficient condition for a unique split of an anchored concatenation of single-character
+    atoms with repetition ranges: after every variable-length atom, the characters that may come
+    next (the following atoms up to and including the first mandatory one, and the optional final
+    newline of `$`) are disjoint from the atom's own class.  Decided on character codes (exact)."""
+    try:
+        atoms = flatten_atoms(P.items)
+    except Unsupported:
+        return False
+    c = z3.Int('c!amb')
+
+    def disjoint(it1, it2):
+        s = z3.Solver()
+        s.set('timeout', 2000)
+        a = code_cond(it1, c, P.is_bytes, P.flags)
+        b = code_cond(it2, c, P.is_bytes, P.flags) if it2 is not None else (c == 10)
+        s.add(c >= 0, c <= 0x10FFFF)
+        for x in (a, b):
+            s.add(x if not isinstance(x, bool) else z3.BoolVal(x))
+        return s.check() == z3.unsat
+    tail_nl = P.end_kind == '$' and mode != 'fullmatch'
+    for i, (it, lo, hi, gs) in enumerate(atoms):
+        if lo == hi:
+            continue
+        j = i + 1
+        closed = False
+        while j < len(atoms):
+            it2, lo2, hi2, _ = atoms[j]
+            if not disjoint(it, it2):
+                return False
+            if lo2 >= 1:
+                closed = True
+                break
+            j += 1
+        if not closed and tail_nl and not disjoint(it, None):
+            return False
+    return True
+
+
+def emit_unambiguous(interp, pattern, P, mode):
+    """side condition: the anchored top-level concatenation splits uniquely (syntactic check first,
+    else a solver obligation)"""
+    from .engine import Obligation
+    name = f"{interp.current}::regex-unambiguous[{pattern.pattern!r}]"
+    if any(o.name == name for o in interp.obligations):
+        return
+    key = (pattern, mode)
+    if key not in _UNAMB:
+        _UNAMB[key] = syntactically_unambiguous(P, mode)
+    if _UNAMB[key]:
+        interp.assumptions.add(f"regex {pattern.pattern!r}: unique split established by the syntactic class-disjointness check "
+                               f"(pyvc.regex.syntactically_unambiguous)")
+        return
+    parts = [(None, item_to_re(it, P.is_bytes, P.flags), False) for it in P.items]
+    if len(parts) < 2:
+        return
+    tail_nl = P.end_kind == '$' and mode != 'fullmatch'
+    xs, cons = split_vars(parts, tail_nl, 'g')
+    ys, cons2 = split_vars(parts, tail_nl, 'h')
+    diff = z3.Or(*[x != y for x, y in zip(xs, ys)])
+    amb = z3.And(z3.Concat(*xs) == z3.Concat(*ys), *cons, *cons2, diff)
+    interp.obligations.append(Obligation(name, [], z3.Not(amb), 'side'))
+
+
+def chars_in_re(pattern, s):
+    """membership of a VChars value in an (un-anchored text, fullmatch) pattern -> bool | z3 Bool"""
+    P = parsed(pattern)
+    atoms = flatten_atoms(P.items)
+    L = len(s.codes)
+    splits = []
+
+    def enum(i, used, counts):
+        if i == len(atoms):
+            if used == L:
+                splits.append(list(counts))
+            return
+        it, lo, hi, gs = atoms[i]
+        mx = L - used if hi is None else min(hi, L - used)
+        for k in range(lo, mx + 1):
+            enum(i + 1, used + k, counts + [k])
+    enum(0, 0, [])
+    alts = []
+    ctab = {}
+    for counts in splits:
+        pos = 0
+        conds = []
+        for ai, ((it, lo, hi, gs), k) in enumerate(zip(atoms, counts)):
+            for j in range(k):
+                key = (ai, pos + j)
+                if key not in ctab:
+                    ctab[key] = code_cond(it, s.codes[pos + j], P.is_bytes, P.flags)
+                conds.append(ctab[key])
+            pos += k
+        alts.append(conj_terms(conds))
+    return disj_terms(alts)
